@@ -447,7 +447,7 @@ def gen_worker(args):
 def correspondence(res):
     from props import c02
     W = 14
-    n = 280 if res.tier == "quick" else 6000
+    n = 280 if res.tier == "quick" else 2240
     infos, _ = c02.parallel(res, gen_worker, [(res.seed * 1000 + w, max(1, n // W)) for w in range(W)])
     res.coverage["rule"] = ("generated specs: (a) 1-4 rules with nested groups x postfix operators (* + ? {n} {n,} {n,m} {,m}) x literals with quotes, backslashes, "
                             "non-ASCII / non-printable characters, bytes, regexes with quotes, bits; (b) schema grammars x 1-3 generated constraints incl. legacy and "
